@@ -11,7 +11,7 @@
 From Coq Require Import List Bool Arith Permutation.
 Import ListNotations.
 Require Import PV.TypeVar.Base PV.TypeVar.Model PV.TypeVar.Spec PV.TypeVar.Simple.
-Require Import PV.Proofs.SolveGen PV.Proofs.SolveAtoms PV.Proofs.SolveGenMain PV.Proofs.SolveCall PV.Proofs.SolveCallGen.
+Require Import PV.Proofs.SolveGen PV.Proofs.SolveAtoms PV.Proofs.SolveGenMain PV.Proofs.SolveCall PV.Proofs.SolveCallGen PV.Proofs.SolveOr.
 Require Import PV.Gen.Solve PV.Gen.SolveAtoms.
 
 (* the translated source computes the reference model *)
@@ -155,6 +155,21 @@ Theorem C15_order_independence_refuted_incomparable_uppers :
   Permutation bs bs' /\ is_err (solve atom_ops bs) = true /\ is_err (solve atom_ops bs') = false.
 Proof. split; [apply perm_refuted_incomparable|split; apply perm_refuted_incomparable]. Qed.
 Print Assumptions C15_order_independence_refuted_incomparable_uppers.
+
+(* OrBound — what intersect_bounds_maps produces when several alternatives of a union
+   annotation accept an argument with different bounds — is ignored by solve: every theorem
+   above holds for the bounds with the OrBounds removed, and a type variable that only
+   receives the OrBound of two distinct alternatives is left unconstrained (Any) *)
+Theorem C15_orbound_is_ignored : forall (V : Type) (O : ops V) bs,
+  solve O (filter (fun b => negb (is_orbound b)) bs) = solve O bs.
+Proof. exact @solve_ignores_orbound. Qed.
+Print Assumptions C15_orbound_is_ignored.
+
+Theorem C15_intersect_of_distinct_alternatives_is_unconstrained : forall (V : Type) (O : ops V) (a1 a2 : list (bound V)),
+  list_eqb (bound_eqb O) a2 a1 = false ->
+  solve O (intersect_bounds O [a1; a2]) = Sol (any_generic O).
+Proof. exact @intersect_of_distinct_alternatives_is_unconstrained. Qed.
+Print Assumptions C15_intersect_of_distinct_alternatives_is_unconstrained.
 
 (* the hypotheses hold on the simple fragment over the implementation's own
    acceptance table, so every theorem above applies to `atom_ops` outright *)
